@@ -36,7 +36,9 @@ HasError(ds) == \E i \in 1..Len(ds) : ds[i].sev = "ERROR"
 ExitIffError(ds, r) == (r # 0) <=> HasError(ds)
 SmallStatus(r) == r \in 0..2                          \* an ordinary status, not a signal
 NoArtefactOnError(ds, r, n) == (HasError(ds) \/ r # 0) => n = 0
-Verdict(expect, ds, r) == IF expect = "valid" THEN ~HasError(ds) /\ r = 0 ELSE HasError(ds) /\ r # 0
+Verdict(expect, ds, r) == CASE expect = "valid" -> ~HasError(ds) /\ r = 0
+                            [] expect = "fault" -> HasError(ds) /\ r # 0
+                            [] OTHER -> TRUE     \* "any": an input whose validity the generator does not decide
 (* the design satisfies them *)
 DesignOK == phase = "done" => ExitIffError(diags, rc) /\ NoArtefactOnError(diags, rc, nfiles) /\ SmallStatus(rc)
 =============================================================================
